@@ -13,7 +13,8 @@ RULE = ('decks whose universes contain LAT=1 cells: 1-, 2-, 3-D orthogonal and s
         'Streams: monitor (Lean spec lattice rule vs written file), model (Layer-B), helpers (LatticeBounds.indices / '
         'LatticeSpec / parse_ranges vs the Lean model, exhaustive small boxes). Non-trivial = deck has a lattice '
         'with more than one element.')
-NOT_PROVED = ['clipping of lattice elements by the container cell and the composition of 2 or 3 pairs of planes into the base vectors are not stated as theorems (latmodel correspondence + point monitor)']
+NOT_PROVED = ['clipping of the lattice elements by the container cell (the C05 theorem: new cell = container ∧ filler) is not '
+              'restated for lattices; decided by the latmodel correspondence and the point monitor']
 ASSUMPTIONS = ['unit cells are bounded by pairs of parallel planes listed pairwise (MCNP requirement)']
 
 
